@@ -106,6 +106,14 @@ class Converter(abc.ABC, t.Generic[T_co]):
 @dataclasses.dataclass
 class AnyConverter(Converter[t.Any]):
     """Converter for ``t.Any``."""
+    handlers: ConverterHandlers = ConverterHandlers()
+    """Handlers in effect where this converter was made"""
+
+    def into_data(self, val: t.Any) -> DataType:
+        """See [`Converter.into_data`][pane.converters.Converter.into_data]"""
+        # nothing is known about `val`: serialize by its runtime type, with the handlers in effect here
+        return make_converter(t.cast(t.Type[t.Any], type(val)), self.handlers).into_data(val)
+
     def try_convert(self, val: t.Any) -> t.Any:
         """See [`Converter.try_convert`][pane.converters.Converter.try_convert]"""
         return val
